@@ -3,7 +3,8 @@
    is the one of ep2_read_bin in c07x_ep2.h (ghost state shared).  Every callee abstract. */
 #pragma once
 #include "c07x_ep2.h"
-extern int g_d2_cp_calls, g_d2_cp_ok;
+extern int g_d2_cp_calls, g_d2_cp_ok, g_d2_bits_calls, g_d2_bits_ok;
+extern size_t g_d2_bits;
 
 #if defined(VC_C07X_EBR)
 #define PT_ST eb_st
@@ -92,21 +93,28 @@ __CPROVER_requires(__CPROVER_is_fresh(a, sizeof(bn_st)) && a->alloc == RLC_BN_SI
 VC_ASSIGNS(a->used, a->sign, __CPROVER_object_upto(a->dp, sizeof(a->dp)), g_d2_rcalls, g_d2_rx, g_d2_tmp, g_d2_cal_err, g_ctx.code)
 __CPROVER_ensures(a->used >= 1 && a->used <= RLC_BN_SIZE && g_d2_rcalls == __CPROVER_old(g_d2_rcalls) + 1 && g_d2_tmp == (const void *)a->dp && VC_ERRFLOW(g_d2_cal_err))
 __CPROVER_ensures(g_d2_rx == ((const void *)bin == g_d2_bin0 && len == RLC_FB_BYTES));
+/* bit length of an integer: arbitrary verdict, recorded together with whether it was asked about the decoded integer, after the
+   decoding and before the copy */
+size_t bn_bits_b(const bn_t a) VC_ASSIGNS(g_d2_bits, g_d2_bits_calls, g_d2_bits_ok)
+__CPROVER_ensures(g_d2_bits == __CPROVER_return_value && g_d2_bits_calls == __CPROVER_old(g_d2_bits_calls) + 1)
+__CPROVER_ensures(g_d2_bits_ok == ((const void *)a->dp == g_d2_tmp && g_d2_rcalls == 1 && g_d2_cp_calls == 0));
 void fb_copy_b(fb_t c, const fb_t a) VC_ASSIGNS(__CPROVER_object_upto(c, sizeof(fb_t)), g_d2_cp_calls, g_d2_cp_ok)
-__CPROVER_ensures(g_d2_cp_calls == __CPROVER_old(g_d2_cp_calls) + 1 && g_d2_cp_ok == ((const void *)c == g_d2_dst && (const void *)a == g_d2_tmp && g_d2_rcalls == 1));
+__CPROVER_ensures(g_d2_cp_calls == __CPROVER_old(g_d2_cp_calls) + 1 && g_d2_cp_ok == ((const void *)c == g_d2_dst && (const void *)a == g_d2_tmp && g_d2_rcalls == 1 && g_d2_bits_calls == 1));
 
 /* binary-field element: exactly RLC_FB_BYTES bytes, otherwise error and the output is untouched; the whole buffer goes through the
-   integer decoder once and the digits of THAT integer are copied to the output once.
-   NOT PROVABLE, because the code has no such test (finding "fb_read_bin accepts bits at or above the field degree", see the report):
-   the property's "yields a reduced field element" - the unused high bits of the top byte are not rejected. */
+   integer decoder once; the bit length of THAT integer was asked once, before the copy, and was <= RLC_FB_BITS (a reduced element:
+   degree below the field degree); the digits of THAT integer are copied to the output once.  The only errors of its own are the
+   wrong length and a bit length above RLC_FB_BITS, both before the output is written (longjmp stub of the unit). */
 void fb_read_bin(fb_t a, const uint8_t *bin, size_t len)
 __CPROVER_requires(len <= 2 * RLC_FB_BYTES + 2 && __CPROVER_is_fresh(a, sizeof(fb_t)) && __CPROVER_is_fresh(bin, len))
-__CPROVER_requires(g_may_throw == 1 && g_ctx.code == RLC_OK && g_d2_bin0 == bin && g_d2_dst == (const void *)a && g_d2_rcalls == 0 && g_d2_rx == 0 && g_d2_cp_calls == 0 && g_d2_cp_ok == 0 && g_d2_cal_err == 0)
+__CPROVER_requires(g_may_throw == 1 && g_ctx.code == RLC_OK && g_d2_bin0 == bin && g_d2_dst == (const void *)a && g_d2_len == len && g_d2_rcalls == 0 && g_d2_rx == 0 && g_d2_cp_calls == 0 && g_d2_cp_ok == 0 && g_d2_cal_err == 0 \
+	&& g_d2_bits_calls == 0 && g_d2_bits_ok == 0)
 __CPROVER_requires(gk < RLC_FB_DIGS ==> a[gk] == g_dig0)
-VC_ASSIGNS(__CPROVER_object_upto(a, sizeof(fb_t)), g_d2_rcalls, g_d2_rx, g_d2_tmp, g_d2_cp_calls, g_d2_cp_ok, g_d2_cal_err, g_ctx.code, g_ctx.last, g_ctx.caught, g_ctx.error, g_ctx.number, g_thrown)
+VC_ASSIGNS(__CPROVER_object_upto(a, sizeof(fb_t)), g_d2_rcalls, g_d2_rx, g_d2_tmp, g_d2_cp_calls, g_d2_cp_ok, g_d2_cal_err, g_d2_bits, g_d2_bits_calls, g_d2_bits_ok, g_ctx.code, g_ctx.last, g_ctx.caught, g_ctx.error, g_ctx.number, g_thrown)
 __CPROVER_ensures(g_ctx.code == RLC_OK || g_ctx.code == RLC_ERR)
-__CPROVER_ensures(len != RLC_FB_BYTES ==> (g_ctx.code == RLC_ERR && g_d2_rcalls == 0 && g_d2_cp_calls == 0 && (gk < RLC_FB_DIGS ==> a[gk] == g_dig0)))
+__CPROVER_ensures(len != RLC_FB_BYTES ==> (g_ctx.code == RLC_ERR && g_d2_rcalls == 0 && g_d2_cp_calls == 0 && g_d2_bits_calls == 0 && (gk < RLC_FB_DIGS ==> a[gk] == g_dig0)))
 __CPROVER_ensures(len == RLC_FB_BYTES ==> (g_d2_rcalls == 1 && g_d2_rx == 1 && g_d2_cp_calls == 1 && g_d2_cp_ok == 1))
+__CPROVER_ensures(len == RLC_FB_BYTES ==> (g_d2_bits_calls == 1 && g_d2_bits_ok == 1 && g_d2_bits <= RLC_FB_BITS))
 __CPROVER_ensures((len == RLC_FB_BYTES && g_d2_cal_err == 0) ==> g_ctx.code == RLC_OK)
 ;
 #endif
